@@ -286,12 +286,19 @@ class Ctx:
                 ev2 = (corrupt_event or default_corrupt)(events[i], rnd)
                 if ev2 is None:
                     continue
+                # only the enclosing trace is re-validated (from its reset to the next one)
+                lo = i
+                while lo > 0 and events[lo].get('ev') != 'reset':
+                    lo -= 1
+                hi = i + 1
+                while hi < len(events) and events[hi].get('ev') != 'reset':
+                    hi += 1
                 bad = self.path(f'bad_{label}.ndjson')
                 with open(bad, 'w') as f:
-                    for j, e in enumerate(events):
-                        f.write(json.dumps(ev2 if j == i else e, separators=(',', ':')) + '\n')
+                    for j in range(lo, hi):
+                        f.write(json.dumps(ev2 if j == i else events[j], separators=(',', ':')) + '\n')
                 rej = self._run_trace(module, cfg, bad, label + '-selftest', timeout, deque)
-                if not any(r['reject'] == i + 1 for r in rej):
+                if not any(r['reject'] == i - lo + 1 for r in rej):
                     raise MachineryError(f'{label}: binding self-test failed: corrupted event {i + 1} was accepted')
                 self.cov.setdefault('selftest', []).append({'label': label, 'corrupted_event': i + 1, 'rejected': True})
                 self.log(f'{label}: binding self-test ok (corrupted event {i + 1} rejected)')
@@ -318,6 +325,7 @@ class Ctx:
         rej = []
         if os.path.exists(self.path(cap)):
             rej = [json.loads(x) for x in open(self.path(cap)) if x.strip()]
+        self.cov['trace_events_outside_model'] = self.cov.get('trace_events_outside_model', 0) + sum(1 for r in rej if 'skip' in r)
         return [r for r in rej if 'reject' in r]
 
     # --------------------------------------------------------------- verdict
